@@ -46,6 +46,9 @@ M = [
     ("rs_indx_zero", "C09", "src/responder.rs", "self.make_response(&srep, &self.cert_bytes, &paths, idx as u32, nonce);", "self.make_response(&srep, &self.cert_bytes, &paths, 0, nonce);", "break"),
     ("rs_path_of_zero", "C09", "src/responder.rs", "let paths = self.merkle.get_paths(idx);", "let paths = self.merkle.get_paths(0);", "break"),
     ("rs_classic_leaf_whole_request", "C02", "src/server.rs", "self.responder_classic.add_classic_request(nonce, src_addr);", "self.responder_ietf.add_classic_request(nonce, src_addr);", "break"),
+    # guard-`continue` in the receive loop (rule R34): a dead one is harmless, one that drops a datagram uncounted breaks C17
+    ("h_server_dead_continue", "C17", "src/server.rs", "                Ok((num_bytes, src_addr)) => {\n", "                Ok((num_bytes, src_addr)) => {\n                    if num_bytes > self.buf.len() {\n                        debug!(\"cannot happen\");\n                        continue;\n                    }\n", "harmless"),
+    ("sv_runt_dropped_uncounted", "C17", "src/server.rs", "                Ok((num_bytes, src_addr)) => {\n", "                Ok((num_bytes, src_addr)) => {\n                    if num_bytes < 1024 {\n                        continue;\n                    }\n", "break"),
     ("rs_ietf_leaf_truncated", "C02", "src/server.rs", "let request_bytes = &self.buf[..num_bytes];", "let request_bytes = &self.buf[12..num_bytes];", "break"),
     ("rs_queue_on_error", "C07", "src/server.rs", "                        Err(e) => {\n                            self.stats_recorder.add_invalid_request(&src_addr.ip(), &e);", "                        Err(e) => {\n                            self.responder_classic.add_classic_request(vec![0u8; 64], src_addr);\n                            self.stats_recorder.add_invalid_request(&src_addr.ip(), &e);", "break"),
     ("rs_short_nonce_log", "C08", "src/responder.rs", "HEX.encode(&nonce[0..4]),", "HEX.encode(&nonce[0..65]),", "break"),
